@@ -96,10 +96,54 @@ def ser_per_case(u, c, tp, val, kw, out, violate):
                 violate("opt-pass_through", "discriminator key lost when the dataclass alternative is passed through",
                         finding="F-passthrough-discriminator")
                 continue
+            if vec[2] and _subclass_passed_through(tp, val, completed, kw, complete):
+                violate("opt-pass_through", "an instance of a subclass passed through where its base class is declared: completed by "
+                        "serialization_default with the fields of its runtime class", finding="F-passthrough-subclass")
+                continue
             violate("opt-pass_through", f"PassThroughOptions{dict(zip(flag_names, vec))} gives {json.dumps(completed)[:200]} "
                                         f"instead of {json.dumps(baseline_json)[:200]}")
     if record.fingerprint(val) != before:
         violate("opt-input-modified", "the serialized value was modified")
+
+
+def _holds_strict_subclass(tp: Any, val: Any) -> bool:
+    """Does `val` hold, at a position declared with a dataclass (directly, in a union, as element of a list / value of
+    a dict), an instance of a STRICT subclass of the first declared class it is an instance of?"""
+    import dataclasses
+    import typing
+
+    origin = typing.get_origin(tp)
+    if origin is typing.Annotated:
+        return _holds_strict_subclass(typing.get_args(tp)[0], val)
+    if origin is typing.Union:
+        for alt in typing.get_args(tp):
+            base = alt
+            while typing.get_origin(base) is typing.Annotated:
+                base = typing.get_args(base)[0]
+            if isinstance(base, type) and dataclasses.is_dataclass(base) and isinstance(val, base):
+                return type(val) is not base
+        return False
+    if origin in (list, typing.List) and isinstance(val, list):
+        return any(_holds_strict_subclass(typing.get_args(tp)[0], x) for x in val)
+    if origin in (dict, typing.Dict) and isinstance(val, dict):
+        return any(_holds_strict_subclass(typing.get_args(tp)[1], x) for x in val.values())
+    if isinstance(tp, type) and dataclasses.is_dataclass(tp) and isinstance(val, tp):
+        return type(val) is not tp
+    return False
+
+
+def _subclass_passed_through(tp: Any, val: Any, completed: Any, kw: dict, complete) -> bool:
+    """F-passthrough-subclass, exactly: the value holds an instance of a strict subclass of the declared dataclass, and
+    what came out (completed) is the serialization of the value BY ITS RUNTIME CLASSES (serialize(Any, value))."""
+    from apischema import serialize
+
+    if not _holds_strict_subclass(tp, val):
+        return False
+    try:
+        by_runtime_class = complete(serialize(Any, val, **kw))
+    except Exception:
+        return False
+    return json_eq(completed, by_runtime_class)
 
 
 def _dunion_aliases(T: Any, acc: set) -> set:
